@@ -14,6 +14,9 @@ using namespace Vector::BLF;
 #define MAXN 3
 #endif
 #define NOPS 9
+#ifndef SECOND_OP
+#define SECOND_OP (-1)
+#endif
 
 struct Model {
     unsigned char data[64]; long have = 0;      // bytes ever written, absolute positions 0..have
@@ -41,10 +44,14 @@ static void observe(UncompressedFile & u, Model & m) {
 extern "C" void h_stream() {
     UncompressedFile * up = new UncompressedFile; UncompressedFile & u = *up;
     Model m;
+#ifdef CSIZE0
+    uint32_t c0 = CSIZE0;             // the task list covers 1..3
+#else
     uint32_t c0 = 1 + (uint32_t)vp_concrete(vp_choose(3, "containerSize"));
+#endif
     u.setDefaultLogContainerSize(c0); m.csize = c0;
     for (int s = 0; s < STEPS; s++) {
-        uint32_t op = (s == 0 && FIRST_OP >= 0) ? (uint32_t)FIRST_OP : (uint32_t)vp_concrete(vp_choose(NOPS, "op"));
+        uint32_t op = (s == 0 && FIRST_OP >= 0) ? (uint32_t)FIRST_OP : (s == 1 && SECOND_OP >= 0) ? (uint32_t)SECOND_OP : (uint32_t)vp_concrete(vp_choose(NOPS, "op"));
         // would-block verdicts of potential waiters before the operation (no lost wake-up obligation)
         uint64_t ng = vp_notified(&u.tellgChanged), np = vp_notified(&u.tellpChanged);
         bool wb0 = !m.ab && !((m.tellp - m.tellg) < m.bs);
